@@ -22,11 +22,54 @@ func allSpace(s string) bool {
 	return true
 }
 
+// lexShapes: the token shapes of the K tier plus shapes that stress the lexer: words with dots and
+// dashes, a trailing backslash, escapes in front of multi-byte runes, escaped delimiters,
+// unterminated phrases and regexps, characters that cannot start a token, non-ASCII words.
+var lexExtraShapes = []shape{
+	{"dotword", []string{"@lower", ".", "@lower"}}, {"dashword", []string{"@lower", "-", "@digit"}},
+	{"trailesc", []string{"@lower", "\\"}}, {"q-esc-mb", []string{"\"", "\\", "@lead2", "@cont", "\""}},
+	{"re-esc", []string{"/", "\\", "/", "@lower", "/"}}, {"mbword", []string{"@lead2", "@cont", "@lower"}},
+	{"q-open", []string{"\"", "@lower"}}, {"re-open", []string{"/", "@lower"}}, {"badchar", []string{"@bad"}},
+	{"minus-mb", []string{"-", "@lead2", "@cont"}}, {"esc-mb", []string{"\\", "@lead2", "@cont"}},
+}
+
+func init() {
+	classes["@lead2"] = "\xc3\xd0\xd9\xc2"
+	classes["@cont"] = "\x80\x85\xa0\xa3\xa9\xbf"
+	classes["@bad"] = "$.,;!#%&@|"
+	register("LexTokens", H_LexTokens)
+}
+
+// H_LexTokens (C16): the segmentation oracle on sequences of K token shapes (longer inputs than
+// the byte tier can reach, with symbolic literal bytes).
+func H_LexTokens() {
+	k := rtParam("K")
+	all := append(append([]shape{}, narrowShapes...), lexExtraShapes...)
+	var buf []byte
+	for i := 0; i < k; i++ {
+		c := rtChoose("shape", len(all))
+		if i > 0 {
+			switch rtChoose("gap", 3) {
+			case 0:
+				buf = append(buf, ' ')
+			case 1:
+				buf = append(buf, '\t', '\n')
+			}
+		}
+		buf = shapeBytes(buf, all[c])
+	}
+	lexSegmentChecks(string(buf))
+}
+
 // H_LexSegment (C16): for every byte string of length N the token stream is a lossless
 // segmentation, Peek agrees with Next and has no effect, EOF is sticky.
 func H_LexSegment() {
-	n := rtParam("N")
-	in := string(rtBytes("in", n))
+	lexSegmentChecks(string(rtBytes("in", rtParam("N"))))
+}
+
+func lexSegmentChecks(in string) {
+	n := len(in)
+	rtObserve("in", in)
 	l, ref := lex.Lex(in), lex.Lex(in)
 	cur := 0
 	for i := 0; i <= n+1; i++ {
